@@ -10,7 +10,7 @@ import random
 import shutil
 
 from .. import build, basicgen as bg, basicref as br
-from ..execu import run, clean_failure_key
+from ..execu import run, clean_failure_key, hang_budget, note_hang, arm_hang_flag
 from ..runner import run_check, CaseResult, Scratch
 
 PROP = 'C08'
@@ -130,7 +130,7 @@ def case(spec):
             tail, stdin, desc = command_line(r, tmp, data)
             files = {'in.bbc': data}
             # --- monitor 1: sanitizer build, with the returned-from-main record
-            r_ = run([BIN['san']['basic']] + tail, stdin=stdin, trace=True, timeout=20, cwd=tmp)
+            r_ = run([BIN['san']['basic']] + tail, stdin=stdin, trace=True, timeout=hang_budget(), cwd=tmp, max_output=8 << 20)
             res.execs += 1
             res.events += 1
             k = clean_failure_key(r_, (0, 1))
@@ -138,7 +138,11 @@ def case(spec):
             res.seen('command_line_kinds', desc)
             res.seen('exit_statuses', r_.rc)
             if k:
+                if k.startswith('hang'):
+                    note_hang()
                 res.violation('san:' + k, 'unclean termination (%s)' % k, r_.brief(), files, r_.argv)
+                if k.startswith('hang'):
+                    continue        # the other builds would only hang too
             else:
                 if ('RET %d' % r_.rc) not in r_.trace:
                     res.violation('no-return-from-main', 'process exited %d without returning from main' % r_.rc,
@@ -146,7 +150,7 @@ def case(spec):
                 if r_.rc != 0 and not r_.err.strip():
                     res.violation('silent-failure', 'exit status %d with empty stderr' % r_.rc, r_.brief(), files, r_.argv)
             # --- monitor 2: MemorySanitizer (everything in the C tool is instrumented)
-            m_ = run([BIN['msan']['basic']] + tail, stdin=stdin, timeout=20, cwd=tmp)
+            m_ = run([BIN['msan']['basic']] + tail, stdin=stdin, timeout=hang_budget(), cwd=tmp, max_output=8 << 20)
             res.execs += 1
             res.add('msan_runs', 1)
             km = clean_failure_key(m_, (0, 1))
@@ -156,8 +160,8 @@ def case(spec):
                 res.violation('msan-vs-asan-differ', 'two instrumented builds of the same tree disagree',
                               {'asan': r_.brief(), 'msan': m_.brief()}, files, m_.argv)
             # --- monitor 3: pattern-initialised locals vs release
-            a_ = run([BIN['rel']['basic']] + tail, stdin=stdin, timeout=20, cwd=tmp)
-            b_ = run([BIN['pattern']['basic']] + tail, stdin=stdin, timeout=20, cwd=tmp)
+            a_ = run([BIN['rel']['basic']] + tail, stdin=stdin, timeout=hang_budget(), cwd=tmp, max_output=8 << 20)
+            b_ = run([BIN['pattern']['basic']] + tail, stdin=stdin, timeout=hang_budget(), cwd=tmp, max_output=8 << 20)
             res.execs += 2
             res.add('pattern_pairs', 1)
             ka, kb = clean_failure_key(a_, (0, 1)), clean_failure_key(b_, (0, 1))
@@ -195,5 +199,10 @@ def main(tier, seed, scale=1.0):
             '(signal, report, status in {0,1}, RET hook record, diagnostic on failure), the MSan build, the release '
             'and pattern-init builds (outputs must agree) and, sampled, under valgrind memcheck; distinct = '
             '(command-line kind, input length, options)')
-    return run_check(PROP, 'exploration', case, specs, tier, seed, rule,
-                     assumptions=['environment faults (ENOMEM, EIO) are out of scope; write faults are C11'])
+    flag = arm_hang_flag()
+    try:
+        return run_check(PROP, 'exploration', case, specs, tier, seed, rule,
+                         assumptions=['environment faults (ENOMEM, EIO) are out of scope; write faults are C11'])
+    finally:
+        if os.path.exists(flag):
+            os.unlink(flag)
